@@ -261,6 +261,27 @@ def c17_transition(ctx: Ctx) -> List[Violation]:
     for vid, v in ctx.post.vehicles.items():
         if sname(v) == "DispatchTrip":
             ctx.cov["c17:dispatchtrip_state"] += 1
+    # a dispatch accepted in THIS step is on record at the end of the step, unless a later dispatch of the same step (instructions
+    # are applied in descending vehicle-id order) took the request over: no other vehicle's instruction may wipe the record
+    applied = ctx.instructed()
+    fresh = {}
+    for vid, rep in applied.items():
+        if rep.get("instruction_type") == "DispatchTripInstruction":
+            v, pre_v = ctx.post.vehicles.get(vid), ctx.pre.vehicles.get(vid)
+            if v is not None and sname(v) == "DispatchTrip" and (pre_v is None or getattr(pre_v.vehicle_state, "instance_id", None) != v.vehicle_state.instance_id):
+                fresh[vid] = v.vehicle_state.request_id
+    for vid, rid in fresh.items():
+        r = ctx.post.requests.get(rid)
+        if r is None:
+            continue
+        later_takers = [o for o, orid in fresh.items() if orid == rid and o < vid]
+        if later_takers:
+            continue
+        ctx.cov["c17:fresh_dispatch"] += 1
+        if r.dispatched_vehicle != vid:
+            others = sorted(o for o in applied if o != vid)
+            out.append(Violation("C17", "fresh_dispatch_not_on_record", (str(r.dispatched_vehicle is None), ",".join(sorted({applied[o]["instruction_type"] for o in others})) or "-"),
+                                 f"vehicle {vid} was dispatched to request {rid} in this step and is travelling to it, but the request records {r.dispatched_vehicle!r} (other instructions of the step: {[(o, applied[o]['instruction_type']) for o in others]})"))
     return out
 
 
